@@ -7,6 +7,12 @@ HERE = os.path.dirname(os.path.dirname(os.path.abspath(__file__)))
 
 # id -> (engine, technique, level text, level note, design ref)
 CHECKS = {
+    "C14": ("XH", "CrossHair-driven exhaustive enumeration (z3 choice variables) of description sets x splits over explicit config / components x registration orders; "
+            "real ColorsConfig/Palette code vs an order-free reference resolver",
+            "bounded exhaustive exploration with exhaustion certificate over 3 ids (incl. dotted, built-in parent, unknown parent), all 6 registration orders, explicit-wins and no_color twins; "
+            "observed through get_color, palettes obtained before/after registrations and the synced global palette",
+            "structural property: the solver enumerates; formatters compared through emitted text",
+            "DESIGN.md 3/C14"),
     "C16": ("BCMC+P2S+XH", "bounded model checking of thread interleavings over the real bytecode (schedule = symbolic z3 array, shared counter/lock versions per step), "
             "AST->z3 for the id structure, CrossHair enumeration for the sequential contract; sat schedules replayed with real threads via sys.monitoring",
             "bounded model checking: for each (threads, calls) configuration z3 shows that NO interleaving at instruction granularity and NO initial counter value yields a duplicate, a gap or a deadlock (unsat), "
